@@ -52,7 +52,7 @@ cpdef int date_to_idx_fast(
     diff_seconds = _total_seconds(date - start_date)
 
     # Integer division for index
-    idx = <int>(diff_seconds / <double>resolution)
+    idx = <int>floor(diff_seconds / <double>resolution)
 
     if force_into_project:
         if idx < 0:
